@@ -47,7 +47,7 @@ def discharge(pc, goal, want_smt2=False, all_backends=False, scale=1):
     """Check validity of  And(pc) => goal."""
     t0 = time.time()
     if z3.is_true(goal):
-        return Verdict('unsat', 'trivial', 0.0)
+        return Verdict('unsat', 'path-evaluation', 0.0)
     s = z3.Solver()
     s.set('timeout', Z3_TIMEOUT_MS * scale)
     for t in pc:
